@@ -19,7 +19,7 @@
 EXTENDS Integers, Sequences, FiniteSets, TLC, SequencesExt, FiniteSetsExt, Json
 
 CONSTANTS MaxStreams, LabelIds,
-          UserTree,      \* 0: no user tree (synthesis); 1: Site -> {A -> {A1}, B}; 2: Site -> {A -> {B}, B}
+          UserTree,      \* 0: no user tree (synthesis); 1: Site -> {A -> {A1}, B}; 2: Site -> {A -> {B}, B}; 3: Site -> {A -> {A1}, BA1}
           DoEmit,
           SuffixMatch,   \* mutant / old defect (fixed by f8b9c6b): a zone also receives streams whose path merely ENDS with the zone's path
           NoPrePass      \* mutant / old defect (fixed by de9c5e0): labelled zones are created lazily, generated O-names can collide
@@ -39,11 +39,14 @@ Label(i) ==
     [] i = 14 -> <<"Site", "A", "B">>
     \* a second generated-looking name under A, leaving a gap (O1 and O3 taken, O2 free: seeded change C10c)
     [] i = 15 -> <<"A", "O3">>
+    \* a zone whose NAME ends with another zone's name (third user tree  Site -> { A -> { A1 }, BA1 }): labels resolve by
+    \* components, not by characters (seeded change C10h)
+    [] i = 16 -> <<"BA1">>
 Raw(i) ==
   CASE i = 1 -> "A" [] i = 2 -> "A/B" [] i = 3 -> "A/B/C" [] i = 4 -> "A/O1" [] i = 5 -> "B" [] i = 6 -> "B/A"
-    [] i = 7 -> "O1" [] i = 8 -> "Site" [] i = 9 -> "A1" [] i = 10 -> "A/A1" [] i = 11 -> "Site/B" [] i = 12 -> "C" [] i = 13 -> "Site/A/A1" [] i = 14 -> "Site/A/B" [] i = 15 -> "A/O3"
+    [] i = 7 -> "O1" [] i = 8 -> "Site" [] i = 9 -> "A1" [] i = 10 -> "A/A1" [] i = 11 -> "Site/B" [] i = 12 -> "C" [] i = 13 -> "Site/A/A1" [] i = 14 -> "Site/A/B" [] i = 15 -> "A/O3" [] i = 16 -> "BA1"
 RawOrder(i) == CASE i = 1 -> 1 [] i = 10 -> 2 [] i = 2 -> 3 [] i = 3 -> 4 [] i = 4 -> 5 [] i = 15 -> 6 [] i = 9 -> 7 [] i = 5 -> 8 [] i = 6 -> 9
-                 [] i = 12 -> 10 [] i = 7 -> 11 [] i = 8 -> 12 [] i = 13 -> 13 [] i = 14 -> 14 [] i = 11 -> 15
+                 [] i = 16 -> 10 [] i = 12 -> 11 [] i = 7 -> 12 [] i = 8 -> 13 [] i = 13 -> 14 [] i = 14 -> 15 [] i = 11 -> 16
 Names == <<"s", "s_2", "s">>        \* stream i is called Names[i]: a duplicate name, and one that looks like a renamed key
 
 S == inp                            \* sequence of [lab, kind]
@@ -92,7 +95,9 @@ MainStep ==
 
 (* Branch 2: resolution against the user tree  Site -> { A -> { A1 }, B }  or  Site -> { A -> { B }, B } *)
 IsNew(p) == Len(p) = 1 /\ p[1] \in { "#new" \o ToString(j) : j \in 1..3 }
-UNodes == IF UserTree = 2 THEN { <<"A">>, <<"A", "B">>, <<"B">> } ELSE { <<"A">>, <<"A", "A1">>, <<"B">> }
+UNodes == IF UserTree = 2 THEN { <<"A">>, <<"A", "B">>, <<"B">> }
+          ELSE IF UserTree = 3 THEN { <<"A">>, <<"A", "A1">>, <<"BA1">> }
+          ELSE { <<"A">>, <<"A", "A1">>, <<"B">> }
 Resolve(i) ==      \* _rewrite_stream_zones_from_tree for stream i; result: the zone path the stream ends up matched to, or <<"?">>
   LET c == Label(S[i].lab)
       full == IF c[1] = "Site" THEN Tail(c) ELSE c          \* canonical "Site/..." or path relative to the root
